@@ -395,7 +395,8 @@ def rule_shadowing(ctx):
         import sgrep
         pvg = sgrep.params(gd)
         ctx.check(R, "DeclarationEnvironment::get_declaration", bool(pvg) and sgrep.has(gd["body"], "self.declarations.get_variable(__n)", sgrep.lets(gd["body"]), {"__n": pvg[0]}), t, site(UV, gd))
-    gn = find_fn(UV, "get_next_version", "DeclarationEnvironment")
+    decl_decided = eval_declaration_env(ctx, R)  # the shape obligations on get_next_version / try_from are its fallback
+    gn = find_fn(UV, "get_next_version", "DeclarationEnvironment") if not decl_decided else None
     if gn is not None:
         ms2 = [m for m in walk(gn["body"]) if m["k"] == "Match" and "global_versions" in render(m["scrut"])]
         import alpha
@@ -418,7 +419,9 @@ def rule_shadowing(ctx):
     for q, f in fns_in_file(UV):
         if f["name"] == "try_from" and "DeclarationEnvironment" in q:
             tf = f
-    if tf is None:
+    if decl_decided:
+        pass
+    elif tf is None:
         ctx.missing(R, "TryFrom<&Parameters> for DeclarationEnvironment")
     else:
         import sgrep
@@ -458,6 +461,100 @@ def rule_shadowing(ctx):
         envn = [k for k, v in sgrep.lets(eu["body"]).items() if len(pve) == 3 and (sgrep.match(sgrep.pattern("__p.try_into()?"), v, {"__p": pve[1]}) or sgrep.match(sgrep.pattern("DeclarationEnvironment::try_from(__p)?"), v, {"__p": pve[1]}) or sgrep.match(sgrep.pattern("TryFrom::try_from(__p)?"), v, {"__p": pve[1]}))]
         oke = len(envn) == 1 and sgrep.has(eu["body"], "visit_statement(__s, __e, __r)", None, {"__s": pve[0], "__e": envn[0], "__r": pve[2]})
         ctx.check(R, "ensure_unique_variables/parameters-outermost", oke, t[:200], site(UV, eu))
+
+
+def eval_declaration_env(ctx, R):
+    """`DeclarationEnvironment` by evaluation (its scoped maps modelled): the versions handed out for repeated declarations
+    of one name are none, 0, 1, 2 .. and the scoped version follows them inside the current block only; building the
+    environment from a parameter list declares every parameter at the parameter list's location and is the collision
+    error exactly when a name repeats.  Returns True when decided."""
+    import passeval
+    from finfun import NONE, S, Unsupported
+    from passeval import O, Panic
+
+    PF = "program_structure/src/control_flow_graph/parameters.rs"
+    ER = "program_structure/src/control_flow_graph/errors.rs"
+    try:
+        w = passeval.PassWorld([ER, PF, UV], UV)
+    except Exception:  # noqa: BLE001
+        return False
+    w.lenient_opaque = True
+    if ("DeclarationEnvironment", "try_from") not in w.methods or ("DeclarationEnvironment", "add_declaration") not in w.methods or "Parameters" not in w.structs:
+        return False
+    envs = []
+
+    def var_env(_n, _a):
+        scopes = [{}]
+        log = []
+
+        def add(name, v):
+            scopes[-1][name] = v
+            log.append((len(scopes), name, v))
+            return ("T", ())
+
+        def get(name):
+            for sc in reversed(scopes):
+                if name in sc:
+                    return S("Some", sc[name])
+            return NONE
+
+        o = ("O", "var-environment", (("add_variable", ("PY", add)), ("get_variable", ("PY", get)), ("add_variable_block", ("PY", lambda: (scopes.append({}), ("T", ()))[1])), ("remove_variable_block", ("PY", lambda: (scopes.pop(), ("T", ()))[1]))))
+        envs.append((o, scopes, log))
+        return o
+
+    w.opaque = (("VarEnvironment::new", var_env),)
+    bad = {}
+    try:
+        # the version table
+        newf = w.methods[("DeclarationEnvironment", "new")][0]
+        addf = w.methods[("DeclarationEnvironment", "add_declaration")][0]
+        del envs[:]
+        env = w.call_fn(newf, [])
+        got = [w.call_fn(addf, [env, "x", NONE, O("loc%d" % i)]) for i in range(4)]
+        want = [NONE, S("Some", 0), S("Some", 1), S("Some", 2)]
+        if got != want:
+            bad["versions"] = "four declarations of `x` are given the versions %s, expected none, 0, 1, 2" % [g[2][0] if isinstance(g, tuple) and len(g) > 2 and g[1] == "Some" else None for g in got]
+        fields = w.structs["DeclarationEnvironment"]
+        sv = [e_ for e_ in envs if e_[0] is env[2][fields.index("scoped_versions")]] if "scoped_versions" in fields else []
+        if sv and [v_ for _d, n_, v_ in sv[0][2] if n_ == "x"] != [0, 1, 2]:
+            bad["versions"] = bad.get("versions") or "the scoped version of `x` is set to %s, expected 0, 1, 2 (never for the unversioned first declaration)" % [v_ for _d, n_, v_ in sv[0][2] if n_ == "x"]
+        # parameters
+        tryf = w.methods[("DeclarationEnvironment", "try_from")][0]
+        site_loc = O("location-of-the-parameter-list")
+        for names in (("a", "b", "c"), ("a",), (), ("a", "b", "a"), ("n", "n")):
+            del envs[:]
+            params = S("Parameters", *[{"param_names": ("L", names), "file_id": S("Some", 3), "file_location": site_loc}[f_] for f_ in w.structs["Parameters"]])
+            res = w.call_fn(tryf, [params])
+            dup = len(set(names)) != len(names)
+            is_err = isinstance(res, tuple) and len(res) > 2 and res[1] == "Err"
+            if dup != is_err:
+                bad["collision"] = "parameters (%s): %s" % (", ".join(names), "accepted although a name repeats" if dup else "rejected")
+                continue
+            if dup:
+                first_dup = [n_ for i_, n_ in enumerate(names) if n_ in names[:i_]][0]
+                er = res[2][0]
+                if not (isinstance(er, tuple) and er[0] == "V" and er[2] == "ParameterNameCollisionError" and er[3].get("name") == first_dup and er[3].get("file_location") is site_loc):
+                    bad["collision"] = "parameters (%s): the error is %s" % (", ".join(names), (er[2], er[3].get("name")) if isinstance(er, tuple) and er[0] == "V" else er)
+                continue
+            envv = res[2][0]
+            decl = [e_ for e_ in envs if e_[0] is envv[2][w.structs["DeclarationEnvironment"].index("declarations")]]
+            recorded = [n_ for _d, n_, _v in decl[0][2]] if decl else None
+            if recorded != list(names):
+                bad["recorded"] = "parameters (%s): the declarations recorded are %s" % (", ".join(names), recorded)
+            elif any(not (isinstance(v_, tuple) and (v_[0] in ("S", "K")) and site_loc in (v_[2] if len(v_) > 2 else ())) for _d, _n, v_ in decl[0][2]):
+                bad["recorded"] = "parameters (%s): a parameter is not declared at the location of the parameter list" % ", ".join(names)
+    except Unsupported as u:
+        ctx.note("DeclarationEnvironment is outside the evaluator's subset (%s): shape obligations apply" % u)
+        return False
+    except Panic as p_:
+        ctx.bad(R, "DeclarationEnvironment/evaluated/no-panic", "panics: %s" % p_, UV)
+        return True
+    finally:
+        w.opaque = ()
+    ctx.check(R, "DeclarationEnvironment/evaluated/versions-none-0-1-2", "versions" not in bad, bad.get("versions") or "repeated declarations of a name get no version, then 0, 1, 2; the scoped version follows", UV)
+    ctx.check(R, "parameters/evaluated/recorded-as-declarations", "recorded" not in bad, bad.get("recorded") or "every parameter is declared, in order, at the location of the parameter list", UV)
+    ctx.check(R, "parameters/evaluated/collision-is-an-error", "collision" not in bad, bad.get("collision") or "a repeated parameter name is the collision error naming that parameter, anything else is accepted", UV)
+    return True
 
 
 def eval_parameter_list(ctx, R):
